@@ -2492,6 +2492,14 @@ int EGLPNUM_TYPENAME_ILLlib_addcol (
 		/* NOTE: If we want to add integer variables, this is the place. */
 		qslp->intmarker[qslp->nstruct] = (char) 0;
 	}
+	if (qslp->is_sos_mem)
+	{
+		/* is_sos_mem has one entry per structural column; the new column is in
+		 * no SOS set */
+		qslp->is_sos_mem = EGrealloc (qslp->is_sos_mem,
+																	sizeof (int) * (qslp->nstruct + 1));
+		qslp->is_sos_mem[qslp->nstruct] = -1;
+	}
 
 	ILL_FAILtrue (qslp->colnames == NULL, "must always be non NULL");
 	EGLPNUM_TYPENAME_ILLlib_findName (qslp, 0 /*isRow */ , name, qslp->nstruct, buf);
